@@ -7,6 +7,10 @@
 //!            3: replay of the model's `slow_prune_run` witness on the real code
 //!            4: A = backup of the FIRST source again (every blob reused from packs the prune marks),
 //!               B = prune
+//!            6: a backup that reuses everything is parked after its index load; prune 1 marks the packs;
+//!               at 0.8 keep_delete prune 2 starts, scans the snapshots and is parked before it lists the
+//!               packs; the backup finishes (shorter than keep_delete); after the marks expired prune 2
+//!               continues (a plan time taken after the scan would let it delete the packs)
 //!            5: only one snapshot exists; A = backup (parked); then that snapshot is forgotten and
 //!               B = prune runs (it finds EVERY pack unused: its new index holds marks only)
 //!   k: A is parked before its k-th (0-based) mutating backend operation (k >= #ops: never parked)
@@ -72,6 +76,8 @@ struct Gate {
     parked: Vec<bool>,
     released: Vec<bool>,
     done: Vec<bool>,
+    /// file type of the mutating operation the actor was parked at
+    park_tpe: Vec<Option<FileType>>,
 }
 
 struct Shared {
@@ -90,6 +96,7 @@ impl Shared {
         g.parked.push(false);
         g.released.push(false);
         g.done.push(false);
+        g.park_tpe.push(None);
         g.count.len() - 1
     }
     fn wait_parked_or_done(&self, a: usize) -> bool {
@@ -127,11 +134,12 @@ impl std::fmt::Debug for ActorBe {
     }
 }
 impl ActorBe {
-    fn gate(&self) {
+    fn gate(&self, tpe: FileType) {
         let a = self.actor;
         let mut g = self.sh.gate.lock().unwrap();
         if g.park_at[a] == Some(g.count[a]) && !g.released[a] {
             g.parked[a] = true;
+            g.park_tpe[a] = Some(tpe);
             self.sh.cv.notify_all();
             while !g.released[a] {
                 g = self.sh.cv.wait(g).unwrap();
@@ -152,6 +160,20 @@ impl ReadBackend for ActorBe {
         self.sh.store.location()
     }
     fn list_with_size(&self, tpe: FileType) -> RusticResult<Vec<(Id, u32)>> {
+        if tpe == FileType::Pack {
+            // park_at == usize::MAX: park before the first pack listing (a prune lists the packs after
+            // it has read the index and scanned the snapshots)
+            let a = self.actor;
+            let mut g = self.sh.gate.lock().unwrap();
+            if g.park_at[a] == Some(usize::MAX) && !g.released[a] {
+                g.parked[a] = true;
+                self.sh.cv.notify_all();
+                while !g.released[a] {
+                    g = self.sh.cv.wait(g).unwrap();
+                }
+                g.parked[a] = false;
+            }
+        }
         self.logged(Kind::List, tpe, &Id::default(), || self.sh.store.list_with_size(tpe))
     }
     fn read_full(&self, tpe: FileType, id: &Id) -> RusticResult<Bytes> {
@@ -173,12 +195,12 @@ impl WriteBackend for ActorBe {
         self.sh.store.create()
     }
     fn write_bytes(&self, tpe: FileType, id: &Id, cacheable: bool, content: BytesList) -> RusticResult<()> {
-        self.gate();
+        self.gate(tpe);
         let _ = self.sh.archive.write_bytes(tpe, id, cacheable, content.clone());
         self.logged(Kind::Write, tpe, id, || self.sh.store.write_bytes(tpe, id, cacheable, content))
     }
     fn remove(&self, tpe: FileType, id: &Id, cacheable: bool) -> RusticResult<()> {
-        self.gate();
+        self.gate(tpe);
         self.logged(Kind::Remove, tpe, id, || self.sh.store.remove(tpe, id, cacheable))
     }
 }
@@ -391,7 +413,9 @@ fn run_case(line: &str) -> Result<String> {
 
     if scenario == 3 {
         // slow_prune_run on the real code
-        let c1 = Cmd::Prune { kd_ms, repack: false };
+        // variant bit 1: prune 1 repacks, so that it is parked at a repack pack write (BEFORE the marks are
+        // stamped); otherwise it is parked inside the index write (AFTER they were stamped)
+        let c1 = Cmd::Prune { kd_ms, repack };
         let p1 = w.register(&c1, Some(0));
         let w1 = w.clone();
         let h1 = std::thread::spawn(move || w1.exec(p1, &c1));
@@ -414,6 +438,30 @@ fn run_case(line: &str) -> Result<String> {
         let _ = hb.join();
         act_a = p1;
         act_b = b;
+    } else if scenario == 6 {
+        let ca = Cmd::Backup(d1.clone());
+        let a = w.register(&ca, Some(0));
+        let wa = w.clone();
+        let ha = std::thread::spawn(move || wa.exec(a, &ca));
+        parked_a = sh.wait_parked_or_done(a);
+        let _ = w.run_now(Cmd::Prune { kd_ms, repack });
+        let t_marks = now_ms();
+        std::thread::sleep(Duration::from_millis((kd_ms * 8 / 10) as u64));
+        let c2 = Cmd::Prune { kd_ms, repack: false };
+        let p2 = w.register(&c2, Some(usize::MAX));
+        let w2 = w.clone();
+        let h2 = std::thread::spawn(move || w2.exec(p2, &c2));
+        parked_b = sh.wait_parked_or_done(p2);
+        sh.release(a);
+        let _ = ha.join();
+        let wait = t_marks + kd_ms + 80 - now_ms();
+        if wait > 0 {
+            std::thread::sleep(Duration::from_millis(wait as u64));
+        }
+        sh.release(p2);
+        let _ = h2.join();
+        act_a = a;
+        act_b = p2;
     } else {
         if variant & 1 != 0 {
             let _ = w.run_now(Cmd::Prune { kd_ms, repack });
@@ -706,9 +754,28 @@ fn run_case(line: &str) -> Result<String> {
 
     let ia = &actors[act_a];
     let ib = &actors[act_b];
+    let first_a = log
+        .iter()
+        .find(|e| e.actor == act_a && matches!(e.kind, Kind::Write | Kind::Remove))
+        .map_or("none", |e| match e.tpe {
+            FileType::Pack => "pack",
+            FileType::Index => "index",
+            FileType::Snapshot => "snapshot",
+            _ => "other",
+        });
+    let (park_a, park_b) = {
+        let g = sh.gate.lock().unwrap();
+        let nm = |t: Option<FileType>| t.map_or("-", |t| match t {
+            FileType::Pack => "pack",
+            FileType::Index => "index",
+            FileType::Snapshot => "snapshot",
+            _ => "other",
+        });
+        (nm(g.park_tpe[act_a]), nm(g.park_tpe[act_b]))
+    };
     let maxbk = actors.iter().filter(|i| i.kind == 'B').map(|i| i.end_ms - i.start_ms).max().unwrap_or(0);
     let head = format!(
-        "ok scen={scenario} variant={variant} maxbk={maxbk} kdms={kd_ms} errF={} A={}{} B={}{} parkedA={} parkedB={} durA={} durB={} kd={} further={} clean={} badrestore={} nsnaps={} errA={} errB={}",
+        "ok scen={scenario} variant={variant} maxbk={maxbk} kdms={kd_ms} firstA={first_a} parkopA={park_a} parkopB={park_b} errF={} A={}{} B={}{} parkedA={} parkedB={} durA={} durB={} kd={} further={} clean={} badrestore={} nsnaps={} errA={} errB={}",
         if actors[further].err.is_empty() { "-" } else { &actors[further].err },
         ia.kind,
         u8::from(ia.ok),
